@@ -215,6 +215,13 @@ def _gen_ens(rng):
         p0 = [str(Fraction(float(x) / float(sum(w)))) for x in w]
     c = {"kind": "ens", "T": T, "p0": p0, "n_steps": rng.choice([0, 1, 2, 2, 3, 4, 5, 7]), "dyadic": dyadic,
          "obs": None, "sparse": rng.random() < 0.4}
+    if rng.random() < 0.25:
+        # start vector given as an INTEGER one-hot array (a state index turned into a vector): the history
+        # must still be p0 * T^k in floating point
+        p = [0] * n
+        p[rng.randrange(n)] = 1
+        c["p0"] = [str(x) for x in p]
+        c["p0_dtype"] = rng.choice(["int64", "int32", "bool"])
     if rng.random() < 0.45:
         c["obs"] = [str(Fraction(rng.randint(-4, 8), rng.choice([1, 1, 2]))) for _ in range(n)]
     if rng.random() < 0.1:
@@ -434,6 +441,8 @@ def _run_ens(c):
     from enspara.msm.synthetic_data import synthetic_ensemble
     T = np.array([[float(Fraction(x)) for x in r] for r in c["T"]], dtype=float)
     p0 = np.array([float(Fraction(x)) for x in c["p0"]], dtype=float)
+    if c.get("p0_dtype"):
+        p0 = p0.astype(c["p0_dtype"])
     obs = None if c["obs"] is None else np.array([float(Fraction(x)) for x in c["obs"]], dtype=float)
     arg = scipy.sparse.csr_matrix(T) if c["sparse"] else T
     p0_before = p0.copy()
